@@ -2779,9 +2779,19 @@ class Partitions(Expr):
     def _simplify_down(self):
         from dask_expr import SetIndexBlockwise
 
-        # MapOverlap is lowered to an operation that reads neighbouring partitions
-        if isinstance(self.frame, Blockwise) and not isinstance(
-            self.frame, (BlockwiseIO, Fused, SetIndexBlockwise, MapOverlap)
+        # MapOverlap is lowered to an operation that reads neighbouring partitions;
+        # the tasks of Sample and Split and of a function that takes
+        # partition_info depend on the number of the partition
+        if (
+            isinstance(self.frame, Blockwise)
+            and not isinstance(
+                self.frame,
+                (BlockwiseIO, Fused, SetIndexBlockwise, MapOverlap, Sample, Split),
+            )
+            and not (
+                isinstance(self.frame, MapPartitions)
+                and self.frame._has_partition_info
+            )
         ):
             operands = [
                 (
